@@ -222,6 +222,7 @@ pub struct WireView {
     pub pings: usize,
     pub n_written: usize,
     pub acked: usize,
+    pub raw: Vec<Vec<u8>>,
 }
 
 pub struct Sim {
@@ -245,6 +246,7 @@ pub struct Sim {
     pub items: BTreeMap<usize, Vec<Value>>,
     pub step_no: u64,
     pub sched_seed: u64,
+    pub full_acc: bool,
 }
 
 pub fn install_quiet_panic_hook() {
@@ -286,6 +288,7 @@ impl Sim {
                             Err(e) => {
                                 let mut v = sum_err(&e);
                                 v["r"] = json!("ret");
+                                v["acc"] = err_accessors(&e);
                                 v
                             }
                         });
@@ -317,6 +320,7 @@ impl Sim {
             items: BTreeMap::new(),
             step_no: 0,
             sched_seed: 0,
+            full_acc: false,
         };
         s.command(Cmd::SetUp(pipe));
         s
@@ -397,6 +401,7 @@ impl Sim {
             match ev {
                 IoEv::WrPacket(b) => {
                     self.wire.n_written += 1;
+                    self.wire.raw.push(b.clone());
                     match mqtt::decode(&b) {
                         Ok(pk) => {
                             self.note_wire(&pk);
@@ -600,7 +605,11 @@ impl Sim {
             Ok(Poll::Pending) => ("pending", empty_abs()),
             Ok(Poll::Ready(Some(d))) => {
                 t.flag.set(); // a stream that yielded may have more: it stays runnable
-                ("item", sum_publish_data(&d))
+                let mut v = sum_publish_data(&d);
+                if self.full_acc {
+                    v["acc"] = publish_accessors(&d);
+                }
+                ("item", v)
             }
             Ok(Poll::Ready(None)) => {
                 t.st = None;
@@ -779,9 +788,23 @@ fn sum_first_response(r: &Result<Either<poster::ConnectRsp, poster::AuthRsp>, Mq
         Err(e) => {
             let mut v = sum_err(e);
             v["r"] = json!("ret");
+            v["acc"] = err_accessors(e);
             v
         }
     }
+}
+
+pub fn publish_accessors(d: &PublishData) -> Value {
+    json!({
+        "dup": d.dup(), "retain": d.retain(), "qos": d.qos() as u8, "topic_name": d.topic_name(), "payload": hex(d.payload()),
+        "payload_format_indicator": d.payload_format_indicator().map(|b| vec![b]).unwrap_or_default(),
+        "topic_alias": d.topic_alias().map(|b| vec![b]).unwrap_or_default(),
+        "message_expiry_interval": d.message_expiry_interval().map(|b| vec![b.as_secs()]).unwrap_or_default(),
+        "correlation_data": opt_b(d.correlation_data()),
+        "response_topic": opt_s(d.response_topic()),
+        "content_type": opt_s(d.content_type()),
+        "user_properties": ups_json(d.user_properties()),
+    })
 }
 
 fn opt_s(o: Option<&str>) -> Value {
